@@ -63,6 +63,7 @@ class G:
         self.txtn = 0
         self.search_lists = set()
         self.plain_lists = set()
+        self._used_tags = set()
 
     # -- primitives.  Every random choice is read from byte blocks drawn from Hypothesis
     # (one `st.binary` draw per 1024 bytes): ~40x cheaper than one draw per decision, and a
@@ -109,7 +110,16 @@ class G:
             xs[i], xs[j] = xs[j], xs[i]
         return xs
 
+    TAG_NAMES = ["item", "text", "value", "input", "group", "repeat", "model", "instance", "bind", "root", "select", "select1", "range",
+                 "trigger", "upload", "hint", "output", "label", "body", "head", "title", "html", "itext", "translation", "setvalue", "name"]
+
     def name(self, prefix=None):
+        if prefix is None and self.P.get("p_tag_names", 0) and self.p("p_tag_names"):
+            free = [t for t in self.TAG_NAMES if t not in self._used_tags]
+            if free:
+                t = self.pick(free)
+                self._used_tags.add(t)
+                return t
         self.n += 1
         pre = prefix if prefix is not None else (self.pick(NAME_PREFIX) if self.p("odd_names", 0.3) else "q")
         return f"{pre}{self.n}"
@@ -281,7 +291,7 @@ class G:
     def add_logic(self, c, base, inside_repeat):
         P = self.p
         if P("p_relevant", 0.25):
-            c["relevant"] = self.expr()
+            c["relevant"] = self.pick(["yes", "TRUE", "no", "False"]) if P("p_bool_logic", 0.0) else self.expr()
         if P("p_required", 0.2):
             c["required"] = self.pick(["yes", "true()", "no", "TRUE", "True", "false"]) if P("_", 0.7) else self.expr()
             if P("p_messages", 0.3):
@@ -289,7 +299,7 @@ class G:
         if P("p_readonly", 0.1):
             c["readonly"] = self.pick(["yes", "no", "true()"]) if P("_", 0.7) else self.expr()
         if base not in ("calculate", "hidden", "note", "acknowledge") and P("p_constraint", 0.2):
-            c["constraint"] = self.expr()
+            c["constraint"] = self.pick(["yes", "TRUE", "no", "False", "true"]) if P("p_bool_logic", 0.0) else self.expr()
             if P("p_messages", 0.3):
                 self.put_translated(c, "constraint_message", lambda: self.text_with_refs("CM"))
         if base not in ("calculate",) and P("p_calc_on_visible", 0.05):
@@ -363,7 +373,7 @@ class G:
         elif P("p_label_on_hidden", 0.1):
             c["label"] = self.text("L")
         if base == "calculate":
-            c["calculation"] = self.calc()
+            c["calculation"] = self.pick(["yes", "TRUE", "no", "False", "true", "NO"]) if P("p_bool_logic", 0.0) else self.calc()
         if P("p_logic", 0.5):
             self.add_logic(c, base, inside_repeat)
         if P("p_default", 0.12) and base not in ("rank", "geotrace", "geoshape", "audio", "video", "file"):
@@ -382,7 +392,8 @@ class G:
             if P("p_randomize", 0.1):
                 c["parameters"] = "randomize=true" + (self.pick(["", " seed=42", " seed=${%s}" % self.pick(self.names) if self.names else ""]))
         elif base == "range" and P("p_params", 0.5):
-            c["parameters"] = self.pick(["start=0 end=5 step=1", "start=1;end=10;step=2", "start=0.5 end=5.5 step=0.5", "end=20", "step=2, start=2"])
+            c["parameters"] = self.pick(["start=0 end=5 step=1", "start=1;end=10;step=2", "start=0.5 end=5.5 step=0.5", "end=20", "step=2, start=2",
+                                           "start=0.5 end=10 step=1", "step=0.5 end=5", "start=1.5", "end=7.5 step=1", "start=0 end=1 step=0.1"])
         elif base == "text" and P("p_params", 0.2):
             c["parameters"] = "rows=" + str(self.integer(1, 9))
         elif base == "image":
@@ -491,8 +502,14 @@ class G:
                 c["appearance"] = "field-list"
             if kind == "g" and "appearance" not in c and P("p_field_list", 0.15):
                 c["appearance"] = self.pick(["field-list", "field-list custom"])
+            if P("p_group_hint", 0.0):
+                self.put_translated(c, "hint", lambda: self.text_with_refs("GH"), p_lang=False)
             if kind == "g" and P("p_table_list", 0.05):
                 c["appearance"] = "table-list"
+                if P("p_group_hint", 0.0):
+                    for k in [k for k in c if k.split("::")[0] == "label"]:
+                        del c[k]
+                    c["hint"] = self.text("GH")
                 table_list = self.some_list()
                 while table_list["name"] in self.search_lists:
                     table_list = self.make_list()
@@ -557,6 +574,8 @@ class G:
                 s[f"attribute::{pre}:thing"] = self.text("A")
         if P("_", pr * 0.3):
             s["attribute::plain"] = self.text("A")
+        if P("p_attr_override", 0.0):
+            s["attribute::" + self.pick(["id", "version"])] = self.pick(["custom-id-7", "9.9.9"])
         if P("_", pr * 0.2):
             s["instance_xmlns"] = "http://example.org/custom-xmlns"
         if P("_", pr * 0.3):
